@@ -444,9 +444,9 @@ func c13RunInstance(ctx *core.Ctx, prefix string, cs *c13Case, rows []Row, want 
 	case "execute_error":
 		ctx.Count("flagged."+prefix+".execute_error["+cs.Site+"]", 1)
 		if core.EnvInt("C13_DEBUG", 0) > 0 {
-			fmt.Printf("DBG\t%s.execute_error\t%s\t1\t%s :: %s\n", prefix, core.J(baseAttrs), cs.SQL, trunc200(extra))
+			fmt.Printf("DBG\t%s.execute_error\t%s\t1\t%s :: %s\n", prefix, core.J(baseAttrs), cs.SQL, c13Trunc(extra))
 		}
-		ctx.Violate(core.Violation{Kind: prefix + ".execute_error", Attrs: baseAttrs, Detail: fmt.Sprintf("Execute(%q) failed: %s", cs.SQL, trunc200(extra)), Case: cs})
+		ctx.Violate(core.Violation{Kind: prefix + ".execute_error", Attrs: baseAttrs, Detail: fmt.Sprintf("Execute(%q) failed: %s", cs.SQL, c13Trunc(extra)), Case: cs})
 		return false
 	case "overload":
 		ctx.Inconclusive("engine declared overload")
@@ -491,7 +491,7 @@ func c13ExecQuiet(sql string, rows []Row) (got []string, status string) {
 	return got, "ok"
 }
 
-func trunc200(s string) string {
+func c13Trunc(s string) string {
 	s = strings.ReplaceAll(s, "\n", " ")
 	if len(s) > 200 {
 		return s[:200] + "…"
